@@ -211,6 +211,12 @@ class C01(PropBase):
                     exact = D(rp["amount"]) * D(cl["v"]) if cl["k"] == "@" else D(cl["v"])
                     if common.dec_fits(exact) and D(p["txn_amount"]) != exact:
                         return {"sig": "price-value", "what": "priced posting valued %s, expected %s" % (p["txn_amount"], exact), "txn": t}
+                    if abs(int(exact)) > 2 ** 96 - 1:
+                        # the value is beyond the 96-bit range whatever the scale: no stored number can stand for it, so a
+                        # transaction containing it cannot have been accepted as balanced
+                        return {"sig": "price-value-overflow",
+                                "what": "priced posting %s %s @ %s is worth %s, beyond the number range, yet accepted with value %s" % (
+                                    rp["amount"], p["comm"], cl["v"], exact, p["txn_amount"]), "txn": t}
             if rt.get("last") and len(posts) == len(rt["posts"]) + 1:
                 others = sum(D(p["txn_amount"]) for p in posts[:-1])
                 lp = posts[-1]
